@@ -515,7 +515,7 @@ def run(ctx):
     common.theorem_stage(ctx)
     M = Model(CFG, ctx.seed + 17)
     inits = [(list(range(M.nch)), None), ([0, 1], None), ([2], None), ([1, 0, 2], None), ([], ["R_BC", 1, 2]), ([0, 2], None)]
-    nrand = 40 if quick else 400
+    nrand = 40 if quick else 250
     progs = [(p, True) for p in FIXED_PROGS]
     while len(progs) < len(FIXED_PROGS) + nrand:
         p = gen_prog(rnd, M, rnd.choice([2, 3, 3, 4]))
@@ -526,18 +526,18 @@ def run(ctx):
         p = gen_prog(rnd, M, 3, allow_unsafe=True)
         progs.append((p, is_safe(p)))
     ctx.log("model A: %d chains, %d variables, %d programs" % (M.nch, len(M.names), len(progs)))
-    prelude, cases, meta, direct = campaign(ctx, M, "a", progs, inits, rnd, 10 if quick else 40)
+    prelude, cases, meta, direct = campaign(ctx, M, "a", progs, inits, rnd, 10 if quick else 25)
     if not quick:
         M4 = Model(CFG4, ctx.seed + 18)
         inits4 = [(list(range(4)), None), ([0, 2], None), ([3, 1], None), ([], ["R_BC", 3]), ([1], None)]
         progs4 = []
-        while len(progs4) < 150:
+        while len(progs4) < 100:
             p = gen_prog(rnd, M4, rnd.choice([2, 3, 4]))
             if is_safe(p):
                 progs4.append((p, True))
         progs4 = [(p, True) for p in FIXED_PROGS] + progs4
         ctx.log("model B: %d chains, %d variables, %d programs" % (M4.nch, len(M4.names), len(progs4)))
-        pl4, cs4, mt4, dr4 = campaign(ctx, M4, "b", progs4, inits4, rnd, 25)
+        pl4, cs4, mt4, dr4 = campaign(ctx, M4, "b", progs4, inits4, rnd, 15)
         prelude += pl4
         cases += cs4
         meta.update(mt4)
